@@ -27,7 +27,7 @@ def main():
              'Each directory holds patch.diff, demo.c (fails with the change, passes without), agent_notes.txt (what the change needs in order to manifest) and meta.json '
              '(what was run, which checks fired, history of the evaluation).\n'
              'All of them compile with the project flags and pass the 30 baseline tests. Variants a/b: round 1 ("needs something specific to manifest"), c/d: rounds 2 and 3, '
-             'e/f: round 4, g/h: round 5, i/j: round 6, k/l: round 7, m/n: round 8, o/p: round 9 (each round was told what the earlier ones had tried and asked for a different family of change).\n'
+             'e/f: round 4, g/h: round 5, i/j: round 6, k/l: round 7, m/n: round 8, o/p: round 9, q/r: round 10 (each round was told what the earlier ones had tried and asked for a different family of change).\n'
              'The table shows the state after the strengthening described in DESIGN.md 8.2 (meta.json "history" says what was missed first).\n\n'
              'Totals: %d changes; %s.\n\n' % (len(r), ', '.join('%s: %d' % kv for kv in sorted(st.items()))))
     open(os.path.join(ROOT, 'seeded', 'SUMMARY.md'), 'w').write(intro + table)
